@@ -41,8 +41,26 @@ func init() {
 		},
 		Real: append(append([]string(nil), bReal...), "World D runs: internal/peer.RedisPubsubPeers + sharder.DeterministicSharder per node"), Stub: bStub,
 		OwnProbes: []string{"span_forwarded_one_hop", "span_owned_by_entry_node", "owner_agreement_checked_multi_node", "redis_peers", "sharder_after_membership_history", "sharder_same_size_replacement", "sharder_on_redis_peers_after_crash"}})
-	Register(&Check{ID: "C19", World: "B/cluster", Gen: genRoute("C19"), Run: runRoute, Real: bReal, Stub: bStub,
-		OwnProbes: []string{"span_forwarded_one_hop", "non_trace_event_direct", "probe_discarded", "forwarded_content_checked", "event_on_peer_listener"}})
+	routeGen19 := genRoute("C19")
+	Register(&Check{ID: "C19", World: "B/cluster",
+		// "for any ownership and stress state": a fifth of the runs are the
+		// stress-relief plans of C16, judged here for the one-path rule
+		Gen: func(r *Rng, tier string, p *Plan) {
+			if r.Bool(0.2) {
+				p.N["stressb"] = 1
+				genStressB(r, tier, p)
+				return
+			}
+			routeGen19(r, tier, p)
+		},
+		Run: func(t *testing.T, p *Plan) *Outcome {
+			if p.On("stressb") {
+				return runStressB(t, p)
+			}
+			return runRoute(t, p)
+		},
+		Real: bReal, Stub: bStub,
+		OwnProbes: []string{"span_forwarded_one_hop", "non_trace_event_direct", "probe_discarded", "forwarded_content_checked", "event_on_peer_listener", "stressed_span_kept", "two_api_keys_one_dataset"}})
 }
 
 func genRoute(check string) func(r *Rng, tier string, p *Plan) {
@@ -88,6 +106,15 @@ func genRoute(check string) func(r *Rng, tier string, p *Plan) {
 		}
 		p.SortOps()
 	}
+}
+
+// keyFor: a trace (or a trace-less event stream) belongs to one of two tenants;
+// both use the same dataset names.
+func keyFor(seed uint64, j int64) string {
+	if H(seed, "tenant", j)%3 == 0 {
+		return legacyKey2
+	}
+	return legacyKey
 }
 
 type routeEv struct {
@@ -204,7 +231,7 @@ func runRoute(t *testing.T, p *Plan) *Outcome {
 			}
 			ev := &bEvent{marker: fmt.Sprintf("m%d", op.N), traceID: tid, root: op.M == 3, probe: op.M == 2, rate: int(1 + op.N%3),
 				ts: time.Unix(1700000000+op.N, 500_000_000).UTC(), fields: map[string]any{"f1": "v" + fmt.Sprint(op.N%4), "big": int64(1) << 40}}
-			req := &bRequest{id: op.ID, node: int(op.I), peer: op.B, endpoint: op.T, enc: op.S, apiKey: legacyKey, dataset: "ds" + fmt.Sprint(op.J%2), events: []*bEvent{ev}}
+			req := &bRequest{id: op.ID, node: int(op.I), peer: op.B, endpoint: op.T, enc: op.S, apiKey: keyFor(p.Seed, op.J), dataset: "ds" + fmt.Sprint(op.J%2), events: []*bEvent{ev}}
 			re := &routeEv{op: op, ev: ev, req: req, entry: int(op.I), owner: -1}
 			if tid != "" {
 				re.owner = owner(tid)
@@ -323,6 +350,18 @@ func runRoute(t *testing.T, p *Plan) *Outcome {
 			}
 			if !known {
 				out.Violate("C19", "unknown_event_at_honeycomb", "route.Router", "Honeycomb received marker %q (%d times) that no client sent", mk, len(hs))
+			}
+		}
+		keysOf := map[string]map[string]bool{}
+		for _, re := range evs {
+			if keysOf[re.req.dataset] == nil {
+				keysOf[re.req.dataset] = map[string]bool{}
+			}
+			keysOf[re.req.dataset][re.req.apiKey] = true
+		}
+		for _, ks := range keysOf {
+			if len(ks) > 1 {
+				out.Probe("two_api_keys_one_dataset")
 			}
 		}
 		var log []string
